@@ -139,6 +139,7 @@ static inline float vmax_f(float a, float b) { return a < b ? b : a; }
 #define min(a, b) _Generic((a) + (b), int: vmin_i, unsigned: vmin_u, long long: vmin_ll, double: vmin_d, float: vmin_f)(a, b)
 #define max(a, b) _Generic((a) + (b), int: vmax_i, unsigned: vmax_u, long long: vmax_ll, double: vmax_d, float: vmax_f)(a, b)
 #define VERIF_COPY(dst, src, n) do { for (unsigned copy_i_ = 0; copy_i_ < (unsigned)(n); ++copy_i_) (dst)[copy_i_] = (src)[copy_i_]; } while (0)
+#define VERIF_FILL(first, last, v) do { for (__typeof__(first) fill_p_ = (first); fill_p_ < (last); ++fill_p_) *fill_p_ = (v); } while (0)
 #define swap(a, b) do { __typeof__(a) swap_t_ = (a); (a) = (b); (b) = swap_t_; } while (0)
 
 /* ------------------------------------------------------------------ libm: exact builtins */
